@@ -275,7 +275,7 @@ pub fn run(ctx: &Ctx, rep: &Report) -> Meta {
     Meta {
         rule: "suite x key x header x ph x committed messages (M >= 0) x signer messages (L >= 0): commit, blind_sign over the commitment octets, verify_blind_sign, \
                octet round trips of commitment / signature / blind factor, issuance without commitment (None and empty spelling), then blind_proof_gen + blind_proof_verify for ALL 2^L x 2^M disclosure pairs \
-               (L, M <= 3 quick / 4 thorough, both suites) and class-sampled pairs for larger shapes incl. L+1+M > 16; oracle: every step Ok, decoded objects equal, proof length 272 + 32*U; \
+               (L, M <= 3 quick / 4 thorough, both suites) and class-sampled pairs for larger shapes incl. L+1+M > 16; shapes (k,0), (0,k), (k,k/2+1), (k mod 5,k) for every k up to 40 / 130, fixed shapes under contention, half of the cases after a warm-up history; oracle: every step Ok, decoded objects equal, proof length 272 + 32*U; \
                non-trivial = a disclosure pair executed on a shape; evaluations = verifications"
             .into(),
         assumptions: vec!["production randomness path (commit and proof_gen use thread_rng)".into()],
